@@ -256,8 +256,20 @@ def root_only_case(rng):
     return {"bufsz": 0, "maxnovel": 16384, "ops": ops, "muts": [{"k": "trunc", "rec": i, "d": 0, "ro": i % 2 == 0} for i in range(len(ops) + 1)]}
 
 
+def small_buffer_case(rng):
+    """a 100-byte writer buffer: a record that does not fit is refused, the others force flushes"""
+    ops = [{"k": "raw", "addr": rbytes(rng, 20), "full": wf_payload(rng, 30)},
+           {"k": "raw", "addr": rbytes(rng, 20), "full": wf_payload(rng, 200)},       # 236-byte record: "exceeds capacity"
+           {"k": "commit", "root": rbytes(rng, 20), "ts": 3},
+           {"k": "raw", "addr": rbytes(rng, 20), "full": wf_payload(rng, 40)},
+           {"k": "raw", "addr": rbytes(rng, 20), "full": wf_payload(rng, 20)},
+           {"k": "commit", "root": rbytes(rng, 20), "ts": 4}]
+    return {"bufsz": 100, "maxnovel": 1, "ops": ops, "muts": gen_muts(rng, len(ops), "quick")}
+
+
 def gen_cases(rng, tier):
-    cases = [f10_case(rng, True), f10_case(rng, False), lone_root_case(rng), short_final_case(rng), big_case(), root_only_case(rng)]
+    cases = [f10_case(rng, True), f10_case(rng, False), lone_root_case(rng), short_final_case(rng), big_case(), root_only_case(rng),
+             small_buffer_case(rng)]
     n = 26 if tier == "quick" else 400
     for i in range(n):
         small = rng.random() < 0.3
@@ -331,7 +343,7 @@ def coq_case(case, out):
         o["poly"], o["bufsz"], maxnovel, cq_list(ops), cq_list(cq_bytes(k) for k in o["known"]), cq_list(muts), cq_bool(bool(case.get("big"))))
     obs = ("{| o_ops := %s; o_journal := %s; o_rootsz := %d; o_recok := %s; o_fn_off := %d; o_fn_n := %d; o_fn_dl := %s; o_res := %s; "
            "o_index := %s; o_big := %d |}" % (
-        cq_list("{| oo_ok := %s; oo_end := %d; oo_disk := %d; oo_synced := %d |}" % (cq_bool(not x["err"]), x["end"], x["diskafter"], x.get("synced", 0))
+        cq_list("{| oo_ok := %s; oo_end := %d; oo_disk := %d; oo_synced := %d |}" % (cq_bool(not x["err"]), x["end"], x["diskafter"], x.get("synced", x["diskafter"]))   # no syscall trace (shrinking re-runs the plain harness): durability not judged
                 for x in o["ops"]),
         cq_bytes(o["journal"]), o["rootsz"], cq_bool(o["fn"]["recordsok"]), o["fn"]["procoff"], o["fn"]["procrecs"],
         cq_bool(o["fn"]["dataloss"]), cq_list(_res(m["res"]) for m in o["muts"]), cq_bytes(o.get("index") or []), bigcode))
